@@ -379,6 +379,8 @@ class Collector:
             self.items[sig] = [what, detail, 1]
         else:
             it[2] += 1
+            if len(detail.get("text", "")) < len(it[1].get("text", "")):   # keep the smallest document as the replay
+                it[0], it[1] = what, detail
 
     def flush(self):
         fam = {}
@@ -389,7 +391,7 @@ class Collector:
                 fam.setdefault(sig.split(":")[0], []).append((sig, what, detail, n))
         for f, lst in fam.items():
             if len(lst) >= COLLAPSE_AT:
-                sig, what, detail, _ = lst[0]
+                sig, what, detail, _ = min(lst, key=lambda x: len(x[2].get("text", "")))
                 d = dict(detail, collapsed=[x[0] for x in lst][:60], replay_signature=sig)
                 self._emit("%s:many-positions" % f, "%d distinct `%s` failures (first: %s)" % (len(lst), f, what), d, sum(x[3] for x in lst))
             else:
